@@ -20,12 +20,22 @@ LOOKALIKE = ['\u00b2', '\u0663', '\uff11', '\u2460', '\u00e9', '\uff21', '\u2003
 SLOTS = ['%YAML 1.1@\n--- a\n', '%YAML 1@.1\n--- a\n', '%YAML @.1\n--- a\n', '%YAML 1.@\n--- a\n', '%YAML@1.1\n--- a\n', '%YA@ML 1.1\n---\n', '%TAG !e@! tag:x\n--- !e@!a b\n', '%TAG !e! tag:x@\n--- !e!a b\n',
          '--- &a@ x\n', '- &a@b x\n- *a@b\n', '- &@ x\n', '--- !t@ x\n', '--- !!s@tr x\n', '--- !<tag:@> x\n', '--- !e%4@ x\n', '--- |@\n  t\n', '--- |1@\n  t\n', '--- >@-\n  t\n',
          '"\\x4@"', '"\\u00@1"', '"\\U0000004@"', 'a:@b\n', 'a: b@# c\n', '-@a\n', '?@a\n:@b\n', '[a,@b]', "'a'@: b\n", 'k: |\n@ text\n', 'a: 1\n@b: 2\n']
+# empty entries, keys and values in every kind of collection (the states the parser passes through only for an empty node)
+EMPTIES = ['a:\n-\n', 'a:\n-\n- b\n', 'a:\n- b\n-\n- c\n', 'top:\n  a:\n  -\n', 'top:\n  a:\n  -\n  b: 1\n', '- a:\n  -\n', '- a:\n  -\n- b\n', 'a:\n-\nb:\n-\n', '-\n-\n', '- -\n', '- - -\n  -\n',
+           '-\n  -\n', '? \n: \n', '?\n', '? a\n?\n', ':\n', ': a\n:\n', 'a:\nb:\n', 'a:\n  b:\nc:\n', '[,]', '[a,,b]', '[a, ]', '{,}', '{a: , b}', '{a: ,}', '{? }', '{? a}', '{? : }', '{: a}', '[? ]', '[? a, ? ]',
+           '[: a]', '- !!str\n- &a\n- *a\n', 'a: !!null\nb: &x\n', '--- \n--- \n', '---\n...\n---\n', '- |\n-\n', 'a: >\nb:\n', '- ? \n  :\n', '- ? -\n  : -\n', 'a:\n- - \n  -\n']
+def empties(rng, n):
+    out = list(EMPTIES)
+    for _ in range(n):
+        a, b = rng.choice(EMPTIES), rng.choice(EMPTIES)
+        out.append(rng.choice(['%s%s', 'k:\n%s%s', '- x\n%s%s', '%s---\n%s']) % (a if a.endswith('\n') else a + '\n', b))
+    return out
 def lookalikes():
     return [t.replace('@', c) for t in SLOTS for c in LOOKALIKE]
 
 def cases(ctx, n):
     rng = ctx.rng; out = []
-    texts = list(ESCAPES) + lookalikes() + gen.mutated_corpus(rng, n)
+    texts = list(ESCAPES) + lookalikes() + empties(rng, 60) + gen.mutated_corpus(rng, n)
     # plain scalars that look like a number for a long time and then are not one (type regexes must give up without backtracking)
     for body in ('1' * 45, '4' + '0123456789' * 5, '1_000' * 9, '0x' + 'F' * 40, '0b' + '10' * 25, '0' + '7' * 40, '1' + ':59' * 15, '3.' + '14' * 20, '1e' + '9' * 40, '2001-12-14t21:59:43.' + '1' * 40, '-' * 40, 'y' * 40):
         for tail in ('A', '-7', '_', ':x', ' #c', '.'):
